@@ -16,13 +16,14 @@ Definition rget (r : registry) (i : N) : cell :=
 Definition rset (r : registry) (i : N) (c : cell) : registry :=
   mkReg (PositiveMap.add (N.succ_pos i) c (r_table r)) (r_rows r) (r_cols r).
 
-(* FNV-1a over is_final, final_output and every (inp, out, addr), with u64 wrapping multiplication *)
-Definition wmul64 (a b : N) : N := N.land (a * b) U64MAX.
-Definition fnv_step (h x : N) : N := wmul64 (N.lxor h x) src_FNV_PRIME.
+(* The bucket function is whatever `Registry::hash` computes in the current source: its body is
+   translated into [src_hash_raw] on every run (tools/rusthash.py -> Generated/SrcParams.v).  At the
+   pinned revision that is FNV-1a over is_final, final_output and every (inp, out, addr), with u64
+   wrapping multiplication.  No proof looks inside it: the registry lemmas only use that the bucket
+   index is [fnv_node n mod rows]. *)
 Definition fnv_node (n : bnode) : N :=
-  let h := fnv_step src_FNV_BASIS (if n_final n then 1 else 0) in
-  let h := fnv_step h (n_fout n) in
-  fold_left (fun h t => fnv_step (fnv_step (fnv_step h (t_inp t)) (t_out t)) (t_addr t)) (n_trans n) h.
+  src_hash_raw (if n_final n then 1 else 0) (n_fout n) (N.of_nat (length (n_trans n)))
+               (map (fun t => (t_inp t, t_out t, t_addr t)) (n_trans n)).
 Definition reg_hash (r : registry) (n : bnode) : N := fnv_node n mod r_rows r.
 
 Inductive entry := Found (addr : N) | NotFound (idx : N) | Rejected.
